@@ -25,6 +25,22 @@ package main
 // an unknown step (e.g. a, b(rejected), c, b(retry with good input), a(again), d): a run ID is only
 // reserved while its execution is pending, so each of these must return its own in-process result.
 //
+// The `dup` stream (every run): concurrent use of one run ID. A slow step is in flight, an Execute
+// with the same run ID arrives meanwhile (small pools of run IDs used concurrently). The client
+// refuses the second with a duplicate-run-ID error; the accepted one must still return its own
+// in-process result. Which of two same-ID calls registers first is the scheduler's choice, so the
+// oracle is: every call returns within the watchdog; a call returns its own in-process result, or -
+// only if it overlapped a same-ID call - an error; of each same-ID group at least one returns its
+// own result.
+//
+// The `signal` stream (every run): Executes that pass a `signalsToStep` channel with a signal
+// already queued, to steps that declare the signal. Client.Execute starts the goroutine forwarding
+// that channel before it registers the run and writes the work-start, so the signal can reach the
+// server ahead of its own work-start and draw an "unknown run" complaint, which must not become
+// the run's result. The order is forced for half of these calls by a client logger that stalls on
+// the "Preparing result channels" message of that run for a few milliseconds (stat
+// `signal:stalled-writes` shows the hook is still hit).
+//
 // A finding carries the whole session (plugin, calls with inputs, rounds, delays, transport, seed) as
 // its detail; `harness atpsession -replay <finding or session json>` re-runs that session.
 //
@@ -328,6 +344,10 @@ type atpxCall struct {
 	V     *hx.Val `json:"input"`    // the input; Execute gets V.ToGo()
 	Delay int     `json:"delay_us"` // pattern "rounds": started this long after its round began
 	Input any     `json:"-"`
+	// a signalsToStep channel with one signal ("sig") already queued is passed to Execute
+	Signal bool `json:"queued_signal,omitempty"`
+	// overlaps another call with the same run ID: the client may refuse it
+	MayBeRefused bool `json:"may_be_refused,omitempty"`
 }
 
 // atpxSpec is one session, complete enough to be re-run.
@@ -342,12 +362,24 @@ type atpxSpec struct {
 	V1        bool        `json:"v1"`
 	Seed      int64       `json:"seed"`
 	Bulk      bool        `json:"bulk_plugin,omitempty"` // the fixed bulk plugin instead of Plugin
+	// how the server's returned errors relate to the failing steps: "" exact, "atleast", "skip"
+	CountMode string `json:"count_mode,omitempty"`
+	// every Write of the client-to-server direction is stalled this long
+	C2SStallUs int `json:"c2s_stall_us,omitempty"`
 	Reuses    int         `json:"run_id_reuses,omitempty"`
 }
 
 func (sp *atpxSpec) build() *schema.CallableSchema {
 	if sp.Stream == "bulk" || sp.Bulk || sp.Plugin == nil {
-		return atpxBulkPlugin()
+		return atpxBulkPlugin(true)
+	}
+	return sp.Plugin.build()
+}
+
+// buildRef is the plugin for the in-process reference: the same, but slow steps do not sleep.
+func (sp *atpxSpec) buildRef() *schema.CallableSchema {
+	if sp.Stream == "bulk" || sp.Bulk || sp.Plugin == nil {
+		return atpxBulkPlugin(false)
 	}
 	return sp.Plugin.build()
 }
@@ -363,24 +395,147 @@ func atpxBlob(uid string, size int) string {
 	return b.String()[:size]
 }
 
-func atpxBulkPlugin() *schema.CallableSchema {
-	in := schema.NewScopeSchema(schema.NewObjectSchema("BulkInput", map[string]*schema.PropertySchema{
-		"uid":  atpsProp(schema.NewStringSchema(nil, nil, nil), true),
-		"size": atpsProp(schema.NewIntSchema(hx_i64(0), hx_i64(1<<20), nil), true),
-	}))
-	outputs := map[string]*schema.StepOutputSchema{
-		"success": schema.NewStepOutputSchema(schema.NewScopeSchema(schema.NewObjectSchema("BulkOutput", map[string]*schema.PropertySchema{
-			"tag":  atpsProp(schema.NewStringSchema(nil, nil, nil), true),
-			"blob": atpsProp(schema.NewStringSchema(nil, nil, nil), true),
-		})), nil, false),
+// atpxBulkPlugin: step "bulk" (large outputs), step "slow" (stays in flight for `ms` milliseconds
+// when sleep is set), step "sbulk" (like bulk, declares the signal "sig" and ignores it).
+func atpxBulkPlugin(sleep bool) *schema.CallableSchema {
+	in := func() *schema.ScopeSchema {
+		return schema.NewScopeSchema(schema.NewObjectSchema("BulkInput", map[string]*schema.PropertySchema{
+			"uid":  atpsProp(schema.NewStringSchema(nil, nil, nil), true),
+			"size": atpsProp(schema.NewIntSchema(hx_i64(0), hx_i64(1<<20), nil), true),
+			"ms":   atpsProp(schema.NewIntSchema(hx_i64(0), hx_i64(1000), nil), false),
+		}))
+	}
+	outputs := func() map[string]*schema.StepOutputSchema {
+		return map[string]*schema.StepOutputSchema{
+			"success": schema.NewStepOutputSchema(schema.NewScopeSchema(schema.NewObjectSchema("BulkOutput", map[string]*schema.PropertySchema{
+				"tag":  atpsProp(schema.NewStringSchema(nil, nil, nil), true),
+				"blob": atpsProp(schema.NewStringSchema(nil, nil, nil), true),
+			})), nil, false),
+		}
 	}
 	handler := func(_ context.Context, input any) (string, any) {
 		m, _ := input.(map[string]any)
 		uid, _ := m["uid"].(string)
 		size, _ := m["size"].(int64)
+		if ms, _ := m["ms"].(int64); ms > 0 && sleep {
+			time.Sleep(time.Duration(ms) * time.Millisecond)
+		}
 		return "success", map[string]any{"tag": uid, "blob": atpxBlob(uid, int(size))}
 	}
-	return schema.NewCallableSchema(schema.NewCallableStep[any]("bulk", in, outputs, nil, handler))
+	sigSchema := schema.NewScopeSchema(schema.NewObjectSchema("SigInput", map[string]*schema.PropertySchema{
+		"note": atpsProp(schema.NewStringSchema(nil, nil, nil), false),
+	}))
+	withSignal := schema.NewCallableStepWithSignals[any, any]("sbulk", in(), outputs(),
+		map[string]schema.CallableSignal{"sig": schema.NewCallableSignal[any, any]("sig", sigSchema, nil, func(context.Context, any, any) {})},
+		nil, nil, nil, func(ctx context.Context, _ any, input any) (string, any) { return handler(ctx, input) })
+	return schema.NewCallableSchema(
+		schema.NewCallableStep[any]("bulk", in(), outputs(), nil, handler),
+		schema.NewCallableStep[any]("slow", in(), outputs(), nil, handler),
+		withSignal)
+}
+
+// atpxSlowWriter stalls every Write of the client-to-server direction for a moment. The client
+// holds its mutex while it writes, so concurrent Executes queue up on that mutex and the order in
+// which an Execute's own work-start and the signal forwarded by its (earlier started) signal
+// goroutine get to write becomes a matter of chance.
+type atpxSlowWriter struct {
+	w      io.WriteCloser
+	d      time.Duration
+	writes int
+}
+
+func (sw *atpxSlowWriter) Write(b []byte) (int, error) {
+	sw.writes++ // writes are serialised by the client mutex
+	time.Sleep(sw.d)
+	return sw.w.Write(b)
+}
+
+func (sw *atpxSlowWriter) Close() error { return sw.w.Close() }
+
+func atpxBulkInput(uid string, size int, ms int) *hx.Val {
+	kvs := [][2]*hx.Val{{hx.Str("uid"), hx.Str(uid)}, {hx.Str("size"), hx.Int("int64", int64(size))}}
+	if ms > 0 {
+		kvs = append(kvs, [2]*hx.Val{hx.Str("ms"), hx.Int("int64", int64(ms))})
+	}
+	return hx.StrAny(kvs...)
+}
+
+// atpxDupSpec: rounds in which a slow step is in flight while further Executes with the same run
+// ID arrive; small pools of run IDs used concurrently.
+func atpxDupSpec(idx int, rnd *rand.Rand, seed int64) *atpxSpec {
+	sp := &atpxSpec{Idx: idx, Stream: "dup", Bulk: true, Pattern: "rounds", Transport: []string{"pipe", "chunked", "split"}[rnd.Intn(3)], Seed: seed, CountMode: "skip"}
+	rounds := 2 + rnd.Intn(3)
+	for r := 0; r < rounds; r++ {
+		var round []int
+		add := func(c atpxCall) {
+			round = append(round, len(sp.Calls))
+			sp.Calls = append(sp.Calls, c)
+		}
+		pool := 1 + rnd.Intn(2)
+		for id := 0; id < pool; id++ {
+			run := fmt.Sprintf("d%d-%d-%c", idx, r, 'a'+id)
+			// the slow one first, its duplicates while it is in flight
+			add(atpxCall{RunID: run, Step: "slow", V: atpxBulkInput(fmt.Sprintf("%s#0", run), rnd.Intn(2000), 40+rnd.Intn(30)), MayBeRefused: true})
+			dups := 1 + rnd.Intn(2)
+			for k := 1; k <= dups; k++ {
+				c := atpxCall{RunID: run, Step: []string{"bulk", "slow", "sbulk"}[rnd.Intn(3)], Delay: 4000 + rnd.Intn(12000), MayBeRefused: true}
+				c.V = atpxBulkInput(fmt.Sprintf("%s#%d", run, k), rnd.Intn(500), 0)
+				add(c)
+			}
+		}
+		// bystanders with their own run IDs
+		for k := rnd.Intn(3); k > 0; k-- {
+			run := fmt.Sprintf("d%d-%d-x%d", idx, r, k)
+			c := atpxCall{RunID: run, Step: "bulk", Delay: rnd.Intn(10000), V: atpxBulkInput(run, rnd.Intn(3000), 0)}
+			if rnd.Intn(4) == 0 {
+				c.V = hx.StrAny([2]*hx.Val{hx.Str("uid"), hx.Str(run)}, [2]*hx.Val{hx.Str("size"), hx.Str("large")})
+			}
+			add(c)
+		}
+		sp.Rounds = append(sp.Rounds, round)
+	}
+	return sp
+}
+
+// atpxSignalSpec: Executes with a queued signal, half of them with the work-start held back.
+func atpxSignalSpec(idx int, rnd *rand.Rand, seed int64) *atpxSpec {
+	// Buffered transports only. Over two unbuffered pipes this stream deadlocks the real client and
+	// server now and then (about 1 session in 300, on the unchanged tree): the client holds its mutex
+	// while a write waits for the server to read; the server's read loop waits on the full workDone
+	// channel because the handler waits for the client to read an error report; the client's read
+	// loop waits for the client mutex (hasEntriesRemaining). That is a liveness matter (C06), not
+	// routing, and is reported separately; a quick check must not depend on it.
+	sp := &atpxSpec{Idx: idx, Stream: "signal", Bulk: true, Pattern: "rounds", Transport: []string{"chunked", "split"}[rnd.Intn(2)], Seed: seed, CountMode: "atleast"}
+	if rnd.Intn(4) > 0 {
+		sp.C2SStallUs = 200 + rnd.Intn(1500)
+	}
+	rounds := 3 + rnd.Intn(4)
+	for r := 0; r < rounds; r++ {
+		var round []int
+		k := 2 + rnd.Intn(5)
+		for c := 0; c < k; c++ {
+			run := fmt.Sprintf("g%d-%d-%d", idx, r, c)
+			call := atpxCall{RunID: run, Step: "sbulk", Signal: true, Delay: rnd.Intn(2000)}
+			switch kind := rnd.Intn(100); {
+			case kind < 60:
+				call.V = atpxBulkInput(run, rnd.Intn(3000), 0)
+			case kind < 70:
+				call.V = atpxBulkInput(run, rnd.Intn(100), 1+rnd.Intn(5))
+			case kind < 85: // rejected input: must come back as the step's own error
+				call.V = hx.StrAny([2]*hx.Val{hx.Str("uid"), hx.Str(run)}, [2]*hx.Val{hx.Str("size"), hx.Str("large")})
+			case kind < 92: // a step that does not declare the signal
+				call.Step = "bulk"
+				call.V = atpxBulkInput(run, rnd.Intn(1000), 0)
+			default:
+				call.Step = "no-such-step"
+				call.V = atpxBulkInput(run, 8, 0)
+			}
+			round = append(round, len(sp.Calls))
+			sp.Calls = append(sp.Calls, call)
+		}
+		sp.Rounds = append(sp.Rounds, round)
+	}
+	return sp
 }
 
 func hx_i64(n int64) *int64 { return &n }
@@ -510,6 +665,8 @@ type atpxSessionResult struct {
 	chunks   int
 	pieces   int
 	unsent   int
+	refused  int
+	stalls   int
 }
 
 func atpxRunSession(sp *atpxSpec, timeout time.Duration) (out atpxSessionResult) {
@@ -518,7 +675,7 @@ func atpxRunSession(sp *atpxSpec, timeout time.Duration) (out atpxSessionResult)
 		calls[i].Input = calls[i].V.ToGo()
 	}
 	find := func(format string, args ...any) { out.findings = append(out.findings, fmt.Sprintf(format, args...)) }
-	ref := sp.build()
+	ref := sp.buildRef()
 	expected := make([]atpxExpect, len(calls))
 	unsent := make([]bool, len(calls))
 	for i, c := range calls {
@@ -597,6 +754,11 @@ func atpxRunSession(sp *atpxSpec, timeout time.Duration) (out atpxSessionResult)
 		}()
 	}
 
+	var slow *atpxSlowWriter
+	if sp.C2SStallUs > 0 {
+		slow = &atpxSlowWriter{w: c2sW, d: time.Duration(sp.C2SStallUs) * time.Microsecond}
+		c2sW = slow
+	}
 	cli := atp.NewClientWithLogger(atpxChannel{Reader: s2cR, Writer: c2sW}, nil)
 	schemaRead := make(chan error, 1)
 	go func() {
@@ -620,7 +782,16 @@ func atpxRunSession(sp *atpxSpec, timeout time.Duration) (out atpxSessionResult)
 		c := calls[i]
 		done := make(chan atp.ExecutionResult, 1)
 		go func() {
-			done <- cli.Execute(schema.Input{RunID: c.RunID, ID: c.Step, InputData: c.Input}, nil, nil)
+			var toStep chan schema.Input
+			if c.Signal {
+				toStep = make(chan schema.Input, 1)
+				toStep <- schema.Input{RunID: c.RunID, ID: "sig", InputData: map[string]any{"note": "queued before Execute"}}
+			}
+			if toStep != nil {
+				done <- cli.Execute(schema.Input{RunID: c.RunID, ID: c.Step, InputData: c.Input}, toStep, nil)
+			} else {
+				done <- cli.Execute(schema.Input{RunID: c.RunID, ID: c.Step, InputData: c.Input}, nil, nil)
+			}
 		}()
 		select {
 		case r := <-done:
@@ -643,6 +814,19 @@ func atpxRunSession(sp *atpxSpec, timeout time.Duration) (out atpxSessionResult)
 		}
 	case pattern == "rounds":
 		for _, round := range sp.Rounds {
+			// a lost result is reported once; the rounds after it would only wait for the watchdog
+			rmu.Lock()
+			lostAlready := false
+			for i := 0; i < len(calls) && i < round[0]; i++ {
+				if results[i] == nil {
+					lostAlready = true
+				}
+			}
+			rmu.Unlock()
+			if lostAlready {
+				stopAt = round[0]
+				break
+			}
 			var wg sync.WaitGroup
 			for _, i := range round {
 				i := i
@@ -692,6 +876,10 @@ func atpxRunSession(sp *atpxSpec, timeout time.Duration) (out atpxSessionResult)
 	if v1 {
 		_ = c2sW.Close()
 	}
+	// The client has stopped reading. A message the server still writes (e.g. its complaint about a
+	// signal that arrived late) would otherwise wait for a reader on an unbuffered pipe until the
+	// server's own 60 s send timeout.
+	go func() { _, _ = io.Copy(io.Discard, s2cR) }()
 	failing := 0
 	for i := 0; i < stopAt; i++ {
 		if expected[i].Err && !unsent[i] {
@@ -701,8 +889,16 @@ func atpxRunSession(sp *atpxSpec, timeout time.Duration) (out atpxSessionResult)
 	serverNote := ""
 	select {
 	case n := <-serverDone:
-		if n != failing {
-			serverNote = fmt.Sprintf("the server returned %d errors, %d steps failed", n, failing)
+		switch sp.CountMode {
+		case "skip": // refused calls never reach the server
+		case "atleast": // signals that overtake their work-start draw an extra, non-fatal complaint
+			if n < failing {
+				serverNote = fmt.Sprintf("the server returned %d errors, %d steps failed", n, failing)
+			}
+		default:
+			if n != failing {
+				serverNote = fmt.Sprintf("the server returned %d errors, %d steps failed", n, failing)
+			}
 		}
 	case <-time.After(timeout):
 		serverNote = fmt.Sprintf("the server did not return within %v after Close", timeout)
@@ -711,6 +907,7 @@ func atpxRunSession(sp *atpxSpec, timeout time.Duration) (out atpxSessionResult)
 	_ = c2sR.Close()
 	_ = s2cR.Close()
 
+	ownResult := map[string]bool{}
 	for i := 0; i < stopAt; i++ {
 		out.calls++
 		rmu.Lock()
@@ -728,6 +925,13 @@ func atpxRunSession(sp *atpxSpec, timeout time.Duration) (out atpxSessionResult)
 		if unsent[i] {
 			out.unsent++
 		}
+		if got != want && calls[i].MayBeRefused && got.Err {
+			out.refused++
+			continue // refused by the client as a duplicate of a run in flight
+		}
+		if got == want && !want.Err {
+			ownResult[calls[i].RunID] = true
+		}
 		if got != want {
 			what := "differs from the in-process result"
 			for j := range calls {
@@ -738,6 +942,31 @@ func atpxRunSession(sp *atpxSpec, timeout time.Duration) (out atpxSessionResult)
 			find("Execute %d (run %s, step %s) %s: got err=%v id=%q data=%s, want err=%v id=%q data=%s",
 				i, calls[i].RunID, calls[i].Step, what, got.Err, got.OutID, atpxShort(got.Data), want.Err, want.OutID, atpxShort(want.Data))
 		}
+	}
+	// of the calls sharing a run ID at least one was accepted and got its own result
+	groups := map[string][2]int{} // run -> (calls, calls whose own result is not an error)
+	for i := 0; i < stopAt; i++ {
+		if calls[i].MayBeRefused {
+			g := groups[calls[i].RunID]
+			g[0]++
+			if !expected[i].Err {
+				g[1]++
+			}
+			groups[calls[i].RunID] = g
+		}
+	}
+	var gkeys []string
+	for k := range groups {
+		gkeys = append(gkeys, k)
+	}
+	sort.Strings(gkeys)
+	for _, k := range gkeys {
+		if g := groups[k]; g[1] == g[0] && !ownResult[k] {
+			find("none of the %d overlapping Executes with run ID %s returned its own result", g[0], k)
+		}
+	}
+	if slow != nil {
+		out.stalls = slow.writes
 	}
 	if serverNote != "" {
 		// after the per-Execute differences, which say more
@@ -920,6 +1149,17 @@ func atpxCmd(a Args) {
 		sp.Reuses = reuses
 		jobs = append(jobs, sp)
 	}
+	// the dup and signal streams
+	nDup, nSig := 24, 48
+	if thorough {
+		nDup, nSig = 300, 600
+	}
+	for i := 0; i < nDup; i++ {
+		jobs = append(jobs, atpxDupSpec(n+nBulk+nReuse+i, brnd, a.Seed*4000037+int64(i)))
+	}
+	for i := 0; i < nSig; i++ {
+		jobs = append(jobs, atpxSignalSpec(n+nBulk+nReuse+nDup+i, brnd, a.Seed*5000011+int64(i)))
+	}
 	results := make([]atpxSessionResult, len(jobs))
 	sem := make(chan struct{}, 16)
 	var wg sync.WaitGroup
@@ -938,6 +1178,9 @@ func atpxCmd(a Args) {
 			timeout := 10 * time.Second
 			if j.Stream == "bulk" {
 				timeout = 5 * time.Second
+			}
+			if j.Stream == "dup" || j.Stream == "signal" {
+				timeout = 4 * time.Second
 			}
 			results[ji] = atpxRunSession(j, timeout)
 		}()
@@ -962,6 +1205,12 @@ func atpxCmd(a Args) {
 		if j.Stream == "bulk" {
 			s.stats["bulk:executes"] += r.calls
 			s.stats["bulk:rounds"] += len(j.Rounds)
+		} else if j.Stream == "dup" {
+			s.stats["dup:executes"] += r.calls
+			s.stats["dup:refused"] += r.refused
+		} else if j.Stream == "signal" {
+			s.stats["signal:executes"] += r.calls
+			s.stats["signal:stalled-writes"] += r.stalls
 		} else if j.Stream == "reuse" {
 			s.stats["reuse:executes"] += r.calls
 			s.stats["reuse:run-id-reuses"] += j.Reuses
